@@ -1,6 +1,6 @@
 (* Property C18, "components configured with the registered defaults overlaid by the user's
    settings", for config structs whose fields are not only scalars: a field may be a number, a
-   map (string -> number), a slice of numbers or a nested struct of numbers, and the registered
+   map (string -> number), a slice of numbers, a nested struct of numbers or a pointer to one, and the registered
    default may hold NON-EMPTY maps / slices / nested structs.  The fill that pluginconfig.parseConf
    builds decodes the section's keys into the config the registry made from the default
    (config.Decode: mapstructure with ErrorUnused = true, ZeroFields = FALSE, WeaklyTypedInput = false):
@@ -31,7 +31,8 @@ Definition has_key {A} (k : key) (m : list (key * A)) : bool := existsb (fun kv 
 
 (* a field of a config struct, with its current content; FSub = nested struct: its fields in
    declaration order *)
-Inductive fval := FNum (n : N) | FMap (m : amap) | FList (l : list N) | FSub (s : amap).
+Inductive fval := FNum (n : N) | FMap (m : amap) | FList (l : list N) | FSub (s : amap)
+  | FPtr (isnil : bool) (s : amap).   (* pointer to a nested struct; nil: s holds the zero values a fresh one would have *)
 Definition cfg := list (key * fval).          (* the struct: fields in declaration order *)
 
 (* a value of the section: nil, a number, a map (values: numbers or nil), a list of numbers *)
@@ -65,6 +66,8 @@ Definition dec_field (cur : fval) (u : uval) : option (fval * nat) :=
   | UNum n, FNum _ => Some (FNum n, 0)
   | UMap um, FMap dm => Some (FMap (dec_map dm um), 0)
   | UMap um, FSub ds => Some (FSub (fst (dec_sub ds um)), snd (dec_sub ds um))
+  (* decodePtr: a nil pointer gets a fresh struct, a non-nil one is decoded into (ZeroFields = false) *)
+  | UMap um, FPtr _ ds => Some (FPtr false (fst (dec_sub ds um)), snd (dec_sub ds um))
   | UList ul, FList _ => Some (FList ul, 0)
   | _, _ => None
   end.
@@ -99,6 +102,7 @@ Definition fits (cur : fval) (u : uval) : bool :=
   | UMap _, FMap _ => true
   | UList _, FList _ => true
   | UMap um, FSub ds => forallb (fun kv => has_key (fst kv) ds) um
+  | UMap um, FPtr _ ds => forallb (fun kv => has_key (fst kv) ds) um
   | _, _ => false
   end.
 (* the settings are acceptable: every key names a field, every field's setting fits it *)
@@ -140,6 +144,11 @@ Definition val_agrees_b (cur : fval) (u : uval) (ob : fval) : bool :=
   | FList d, FList x => listN_eqb x (match u with UList l => l | _ => d end)
   | FMap d, FMap x => map_agrees_b d (match u with UMap um => um | _ => [] end) x
   | FSub d, FSub x => amap_eqb x (sub_expect d (match u with UMap um => um | _ => [] end))
+  | FPtr dn d, FPtr xn x =>
+      match u with
+      | UMap um => negb xn && amap_eqb x (sub_expect d um)
+      | _ => Bool.eqb dn xn && (xn || amap_eqb x d)      (* untouched: still nil, or the default's struct *)
+      end
   | _, _ => false
   end.
 (* a product's config = the registered default overlaid by the settings *)
